@@ -259,3 +259,64 @@ def run(repo: Repo, rep: Report) -> None:
                "%s is resolved against BASE without a test that it is relative: with BASE <http://example/> the absolute IRI <http://example/a?> (the n3() text of that term) is read as <http://example/a>" % x, node=c)
     if nf == 0:
         rep.ob("C07.f-sparql-absolute-iri-not-rebased", sm, "Prologue.absolutize", "no base resolution through URIRef(base=)", True, "resolution not delegated to urljoin", node=af)
+
+
+_run_base = run
+
+
+def run(repo: Repo, rep: Report) -> None:  # noqa: F811
+    _run_base(repo, rep)
+    # ------------------------------------------------------------------ (g)
+    rep.rule("C07.g-sparql-text-parsed-with-tabs",
+             "pyparsing's parse_string() expands the tabs of its input to spaces unless parseWithTabs() was called on the expression it is invoked on (documented behaviour); "
+             "SPARQL string literals may contain a raw tab (it is what Literal.n3() writes), so every grammar element that parseQuery/parseUpdate call parse_string on is set "
+             "to parse with tabs (as the TSV result grammar of the same package already is)", floor=2)
+    pm = repo.mod("rdflib.plugins.sparql.parser")
+    alias = {}
+    for st in pm.tree.body:
+        if isinstance(st, ast.Assign) and isinstance(st.value, ast.Name) and isinstance(st.targets[0], ast.Name):
+            alias[st.targets[0].id] = st.value.id
+
+    def root(n: str) -> str:
+        seen = set()
+        while n in alias and n not in seen:
+            seen.add(n)
+            n = alias[n]
+        return n
+
+    with_tabs = set()
+    for c in ast.walk(pm.tree):
+        if isinstance(c, ast.Call) and isinstance(c.func, ast.Attribute) and c.func.attr in ("parseWithTabs", "parse_with_tabs") and isinstance(c.func.value, ast.Name):
+            with_tabs.add(root(c.func.value.id))
+    n_entry = 0
+    for fn in ("parseQuery", "parseUpdate"):
+        f = pm.func(fn)
+        for c in own_nodes(f):
+            if isinstance(c, ast.Call) and isinstance(c.func, ast.Attribute) and c.func.attr in ("parse_string", "parseString") and isinstance(c.func.value, ast.Name):
+                n_entry += 1
+                el = c.func.value.id
+                ok = root(el) in with_tabs
+                rep.ob("C07.g-sparql-text-parsed-with-tabs", pm, fn, c, ok,
+                       "%s parses with tabs" % el if ok else
+                       "%s.parse_string() runs on a copy of the request in which every tab was replaced by spaces: the literal `a<TAB>b` in quotes (the n3() text of a literal with a tab) is read as 'a' + spaces + 'b'" % el, node=c)
+    if n_entry == 0:
+        raise AnalysisError("parseQuery/parseUpdate: parse_string call not found")
+
+    # ------------------------------------------------------------------ (h)
+    rep.rule("C07.h-from-n3-covers-what-n3-writes",
+             "util.from_n3 has a branch for every bare form Identifier.n3() writes: `?name` is read as a Variable (not swallowed by the fall-through that makes a blank node of "
+             "any other text), and a decimal shorthand is not converted through float() (a decimal has arbitrary precision; float's repr of a large one is exponent notation, "
+             "which is not a decimal lexical form)", floor=2)
+    um = repo.mod("rdflib.util")
+    f = um.func("from_n3")
+    var_branch = [n for n in own_nodes(f) if isinstance(n, ast.If) and 'startswith("?")' in norm(n.test).replace("'", '"')
+                  and any(isinstance(r, ast.Return) and r.value is not None and "Variable" in norm(r.value) for r in n.body)]
+    rep.ob("C07.h-from-n3-covers-what-n3-writes", um, "from_n3", "`?name` -> Variable", bool(var_branch),
+           "" if var_branch else "no branch for the n3() form of a Variable: from_n3('?v') falls through to BNode('?v')", node=f)
+    dec = [c for c in own_nodes(f) if isinstance(c, ast.Call) and norm(c.func).endswith("Literal") and any(k.arg == "datatype" and norm(k.value).endswith("XSD.decimal") for k in c.keywords)]
+    if not dec:
+        raise AnalysisError("from_n3: decimal shorthand branch not found")
+    for c in dec:
+        through_float = any(isinstance(x, ast.Call) and norm(x.func) == "float" for a in c.args for x in ast.walk(a))
+        rep.ob("C07.h-from-n3-covers-what-n3-writes", um, "from_n3", c, not through_float,
+               "exact" if not through_float else "the decimal is built from float(s): from_n3('100000000000000000000000.5') gives the lexical form 1.0000000000000001e+23 (not a decimal lexical form), and digits beyond double precision are lost", node=c)
